@@ -240,22 +240,27 @@ Fixpoint get_col (cols : list (name * rawcol)) (nm : name) : option rawcol :=
   | (n, c) :: r => if str_eqb nm n then Some c else get_col r nm
   end.
 
-(* DataFrameToTensorFrameConverter(...)(df) *)
-Definition convert {L} (target : option name) (df : frame L) : option tensor_frame :=
-  let names := col_names_dict_init (col_to_stype_of (f_cols df)) target in
+(* DataFrameToTensorFrameConverter(...)(df); `enc c` stands for
+   self._get_mapper(col).forward(df[col]) on the column c = df[col] *)
+Definition convert_with (enc : rawcol -> option encoded) (target : option name) (cols : list (name * rawcol))
+  : option tensor_frame :=
+  let names := col_names_dict_init (col_to_stype_of cols) target in
   xs_dict <- mapM (fun e =>
-                     xs <- mapM (fun col => c <- get_col (f_cols df) col ;; encode_col (f_index df) c) (snd e) ;;
+                     xs <- mapM (fun col => c <- get_col cols col ;; enc c) (snd e) ;;
                      Some (fst e, xs)) names ;;
   feat_dict <- mapM (fun e => f <- assemble (fst e) (snd e) ;; Some (fst e, f)) xs_dict ;;
   y <- match target with
        | None => Some None
-       | Some t => match get_col (f_cols df) t with                               (* target_col in df *)
+       | Some t => match get_col cols t with                                       (* target_col in df *)
                    | None => Some None
-                   | Some c => option_map Some (encode_col (f_index df) c)
+                   | Some c => option_map Some (enc c)
                    end
        end ;;
   t <- tf_validate (MkTF feat_dict names y) ;;
   merge_feat t.
+
+Definition convert {L} (target : option name) (df : frame L) : option tensor_frame :=
+  convert_with (encode_col (f_index df)) target (f_cols df).
 
 (* ------------------------------------------------------------------------- *)
 (* reading the frame the way a user does: tf.feat_dict[stype][i, j] *)
